@@ -59,8 +59,8 @@ func piecesOf(v *linker.VerifLinker, b []byte) []linker.VerifPiece {
 }
 
 func metaCases(r *Rng, n int, cf *CoqFile, st *Stats) {
-	relNames := []string{"a.js", "chunks/x-ABCDEFGH.js", "../up/y.js", "deep/er/z-12345678.js", "s.css"}
-	assetNames := []string{"/out/img-AAAA1111.png", "/out/assets/b-BBBB2222.png", "/elsewhere/c.bin"}
+	relNames := []string{"a.js", "chunks/x-ABCDEFGH.js", "../up/y.js", "deep/er/z-12345678.js", "s.css", "chunks/q\"x\ty\\z-ABCD1234.js"}
+	assetNames := []string{"/out/img-AAAA1111.png", "/out/assets/b-BBBB2222.png", "/elsewhere/c.bin", "/out/assets/i\"m\x01g-CCCC3333.png"}
 	var items []string
 	for i := 0; i < n; i++ {
 		prefix := "Pq" + string("ABCDEFGHIJKLMNOPQRSTUVWXYZabcdef"[r.Intn(32)]) + "x"
